@@ -207,9 +207,53 @@ fn big_cases(rep: &Report) {
     }
 }
 
+/// every minimal-encoding length class on both sides: coin of amount a creating a coin of amount b,
+/// and the id helper `Coin::coin_id()` on both
+fn boundary_sweep(rep: &Report) {
+    use chia_protocol::{Bytes32, Coin};
+    let am: Vec<u64> = vec![0, 1, 0x7f, 0x80, 0xff, 0x100, 0x7fff, 0x8000, (1 << 23) - 1, 1 << 23, (1 << 31) - 1, 1 << 31, u32::MAX as u64, 1 << 32, (1 << 39) - 1, 1 << 39, (1 << 47) - 1, 1 << 47, (1 << 55) - 1, 1 << 55, (1u64 << 63) - 1, 1 << 63, u64::MAX];
+    let constants = test_constants();
+    let sig = Signature::default();
+    let pairs: Vec<(u64, u64)> = am.iter().flat_map(|a| am.iter().filter(move |b| *b <= a).map(move |b| (*a, *b))).collect();
+    pairs.par_iter().for_each(|(a, b)| {
+        let s = GSpend::identity(parent(9), *a, Sx::list(&[drive::cond(51, &[Sx::atom(&drive::PH2), Sx::int(*b)])]));
+        let inputs = vec![(s.parent, s.puzzle_hash(), s.amount)];
+        let g = generator_sx(std::slice::from_ref(&s)).serialize();
+        let bundle = genr::bundle(std::slice::from_ref(&s), &sig);
+        let case = json!({"boundary": [a, b]});
+        for (path, r) in [
+            ("run_block_generator2", run_gen2(&g, &[], BIG_COST, ConsensusFlags::DONT_VALIDATE_SIGNATURE, &sig, constants).map(|r| r.summary)),
+            ("run_spendbundle", run_bundle(&bundle, BIG_COST, ConsensusFlags::DONT_VALIDATE_SIGNATURE, constants).map(|r| r.0.summary)),
+        ] {
+            rep.eval();
+            match r {
+                Err(e) => rep.violation(&format!("C02/rejects-valid/{path}"), case.clone(), format!("coin {a:#x} creating {b:#x}: {e:?}")),
+                Ok(sum) => {
+                    if let Err((sg, d)) = check_accepted(&sum, Some(&inputs)) {
+                        rep.violation(&format!("C02/monitor/{sg}/{path}"), case.clone(), d);
+                        continue;
+                    }
+                    // the id helper agrees with the reported ids, for the spent and the created coin
+                    let sp = &sum.spends[0];
+                    let spent = Coin::new(Bytes32::new(sp.parent), Bytes32::new(sp.puzzle_hash), sp.amount).coin_id().to_bytes();
+                    let child = Coin::new(Bytes32::new(sp.coin_id), Bytes32::new(drive::PH2), *b).coin_id().to_bytes();
+                    let want_child = sha256(&[&sp.coin_id, &drive::PH2, &mc::sx::enc_u64(*b)]);
+                    if spent != sp.coin_id || child != want_child {
+                        rep.violation("C02/coin-id-helper", case.clone(), format!("Coin::coin_id() of the spent coin ({a:#x}) or created coin ({b:#x}) differs from SHA-256(parent|ph|minimal amount)"));
+                    } else {
+                        rep.outcome("boundary/accepted");
+                    }
+                }
+            }
+        }
+    });
+    rep.extra("boundary_pairs", json!(pairs.len()));
+}
+
 fn run(rep: &Report) {
+    boundary_sweep(rep);
     let cs = cases(rep.tier == mc::Tier::Thorough);
-    rep.set_rule("bundles of 1-3 identity-puzzle spends with coin amounts in {0,1,2^63,2^64-1}, each creating a multiset of outputs over 2 puzzle hashes x the same 4 amounts (1 spend: <=3 outputs; 2 spends: <=2 (+<=1); 3 spends: <=1 each), RESERVE_FEE in {absent,0,1,2^64-1}, through parse_spends (both visitors), run_block_generator, run_block_generator2, run_spendbundle, validate_clvm_and_signature; plus 300 and 6000 spends of 2^64-1 and one spend with 4000 outputs. distinct = distinct cases");
+    rep.set_rule("bundles of 1-3 identity-puzzle spends with coin amounts in {0,1,2^63,2^64-1}, each creating a multiset of outputs over 2 puzzle hashes x the same 4 amounts (1 spend: <=3 outputs; 2 spends: <=2 (+<=1); 3 spends: <=1 each), RESERVE_FEE in {absent,0,1,2^64-1}, through parse_spends (both visitors), run_block_generator, run_block_generator2, run_spendbundle, validate_clvm_and_signature; plus 300 and 6000 spends of 2^64-1 and one spend with 4000 outputs; plus every pair (a >= b) of the 23 minimal-encoding length-class boundary amounts as (spent coin, created coin) incl. the Coin::coin_id() helper. distinct = distinct cases");
     rep.assume("acceptance oracle: u128 sums of the case's own amounts; monitor: mc::monitor::check_accepted on every accepted summary");
     rep.extra("cases", json!(cs.len()));
     cs.par_chunks(256).for_each(|chunk| {
@@ -240,7 +284,7 @@ fn run(rep: &Report) {
 }
 
 fn replay(case: &Value) -> String {
-    if case.get("big").is_some() {
+    if case.get("big").is_some() || case.get("boundary").is_some() {
         return "structured large case: re-run the check".into();
     }
     let spends: Vec<(usize, Vec<usize>)> = case["spends"].as_array().unwrap().iter().map(|s| (s[0].as_u64().unwrap() as usize, s[1].as_array().unwrap().iter().map(|x| x.as_u64().unwrap() as usize).collect())).collect();
